@@ -448,7 +448,7 @@ def segmentations(rng, stream: bytes, quick: bool):
     for i in singles:
         out.append(cut(stream, [i]))
     if n >= 3:
-        k = min(12 if quick else 60, (n - 1) * (n - 2) // 2)
+        k = min(12 if quick else 40, (n - 1) * (n - 2) // 2)
         seen = set()
         if (n - 1) * (n - 2) // 2 <= k:
             for i in range(1, n):
@@ -782,7 +782,7 @@ def suite_zlib(ctx):
     rng = ctx.rng
     ran = 0
     with _Backend(None):
-        for _ in range(60 if ctx.quick else 1500):
+        for _ in range(60 if ctx.quick else 600):
             takeover = rng.random() < 0.7
             co = _real_zlib.compressobj(wbits=-15)
             msgs = []
